@@ -84,7 +84,7 @@ SCAN = ['basic_smr::scan', 'basic_smr::classic_scan', 'basic_smr::inplace_scan',
 GROUPS = []
 for kind, nm in ((0, 'classic'), (1, 'inplace')):
     Q = (2, 2, 3) if kind == 0 else (2, 2, 2)      # the in-place strategy contains the classic one (odd-address fallback): smaller quick bound
-    Q1 = (2, 1, 3) if kind == 0 else (2, 1, 2)
+    Q1 = (2, 1, 3)       # capacity > hazard slots x threads (documented precondition of the room obligations)
     GROUPS += [
         grp('scan_c01_' + nm, 'h_scan_c01', ['C01'], [r'C01\.no_free_while_guarded', r'C01\.kept_once'], SCAN, Q, (3, 2, 3), scan=kind),
         grp('scan_c03_free_' + nm, 'h_scan_c03_free', ['C03'], [r'C03\.freed_when_unprotected', r'C03\.at_most_once', r'C03\.no_invention'], SCAN, Q, (3, 2, 3), scan=kind),
